@@ -6,8 +6,8 @@ use quote::ToTokens;
 use syn::{BinOp, Expr, Stmt};
 
 fn die(m: &str) -> ! {
-    eprintln!("rs2v(bitmap): {}", m);
-    std::process::exit(2)
+    // caught in main: only the Gen file of this part of the source is replaced by a rejection marker
+    panic!("rs2v(bitmap): {}", m)
 }
 fn toks<T: ToTokens>(t: &T) -> String {
     t.to_token_stream().to_string()
